@@ -64,9 +64,11 @@ def plan(tier):
                'do { int d = int(m % base); tmp[n++] = char(d < 10 ? 48 + d : 87 + d); m /= base; } while (m); int k = 0; if (v < 0) out[k++] = 45; while (n) out[k++] = tmp[--n]; return k; }\n')
     plan_ = [(ts, 10) for ts in ['i8', 'u8', 'i16', 'u16'] + (['u32'] if thorough else [])]      # int32_t: no SAT answer in 1800 s (sign path + 10 levels of 32-bit division), not claimed
     plan_ += [('u8', 16), ('i16', 16)] + ([('i8', 16), ('u16', 16), ('u16', 36), ('i8', 11)] if thorough else [])      # other bases (seed C14_2: digit ten printed as ':')
+    plan_ += [('i8', 2), ('u8', 2)] + ([('i16', 2), ('u16', 8), ('i8', 3)] if thorough else [])      # smallest bases: the longest numerals (more recursion levels than base 10 ever reaches)
     for ts, base in plan_:
         t = T(ts)
-        cap = cap10(t)
+        nd = ndigits(max(abs(t.min), t.max), base)
+        cap = max(cap10(t), nd + (1 if t.signed else 0))      # base 10 / 16 / 36: cap10 (unchanged); smaller bases need the longer buffer
         sfx = ts if base == 10 else '%s_b%d' % (ts, base)
         sname = 'vp_text_' + sfx
         # native shim: 1 iff the produced text is exactly the numeral in that base (reference: plain digit loop)
@@ -74,7 +76,6 @@ def plan(tier):
                    'int m = vp_ref_numeral(static_cast<long long>(v), %d, ref); '
                    'return r.ec == std::errc{} && (r.ptr - buf) == m && std::memcmp(buf, ref, m) == 0; }\n' % (sname, cxx(ts), base, base))
         heavy = t.bits >= 32
-        nd = ndigits(max(abs(t.min), t.max), base)
         # the lowest value of 32/64-bit signed types is a known finding of C13 (negation); excluded here by precondition
         pre = '__CPROVER_assume(vp_in1 >= %d);' % (nd + 1)
         if t.signed and t.bits >= 32:
@@ -89,5 +90,5 @@ def plan(tier):
             'not_applicable_parts': ['scaled_integer text (layout selection fixed/scientific, truncation): needs a decimal parser as a spec function over an input-dependent layout; not built',
                                      'int32_t, 64/128-bit and wide integers: 10-20+ levels of 32/64-bit division by 10 against the spec dividers (int32_t: solver timeout at 1800 s); not claimed',
                                      'to_string / operator<< (std::string, iostreams)', 'the lowest value of int32/int64 (C13 known finding)'],
-            'assumptions': ['bases 10 and 16 (quick), 11 and 36 added in the thorough tier; other bases not instantiated']}
+            'assumptions': ['bases 10, 16 and 2 (quick); 3, 8, 11 and 36 added in the thorough tier; other bases not instantiated']}
     return {'kernels': [k], 'jobs': jobs, 'meta': meta}
